@@ -16,6 +16,7 @@ import (
 	"sync/atomic"
 	"time"
 
+	"github.com/samber/lo"
 	"github.com/samber/ro"
 )
 
@@ -196,4 +197,163 @@ func sortStrings(s []string) {
 			s[j], s[j-1] = s[j-1], s[j]
 		}
 	}
+}
+
+// ---------------------------------------------------------------------------------------------
+// kind=overlap2 (C02 search / validation): every operator with more than one feeder — a second
+// source, a notifier / boundary / tick observable, inner observables, a fallback that is itself
+// multi-source — with ALL its inputs driven from goroutines of their own (values, then a terminal),
+// delivered into the RAW overlap observer (through a Map where the element type is not int: Map is
+// built with the unsafe constructor, so nothing but the operator's own subscriber serialises).
+// The model's verdict is constant: every one of these operators is built with a locking constructor
+// (RoProps/C02b table_ok over the regenerated rows), so callbacks never overlap.
+
+// a goroutine-driven source that ends with an error (`fail`) or completes
+func pumpSourceEnd(count, base int, fail bool) ro.Observable[int] {
+	return ro.NewUnsafeObservableWithContext(func(ctx context.Context, dest ro.Observer[int]) ro.Teardown {
+		var stop int32
+		go func() {
+			for i := 0; i < count && atomic.LoadInt32(&stop) == 0; i++ {
+				dest.NextWithContext(ctx, base+i)
+			}
+			if fail {
+				dest.ErrorWithContext(ctx, fmt.Errorf("pump %d", base))
+			} else {
+				dest.CompleteWithContext(ctx)
+			}
+		}()
+		return func() { atomic.StoreInt32(&stop, 1) }
+	})
+}
+
+func lenOf[T any](o ro.Observable[[]T]) ro.Observable[int] {
+	return ro.Map(func(v []T) int { return len(v) })(o)
+}
+
+// name -> pipeline over pumped inputs; `fail` makes the SECOND input end with an error
+var overlap2Ops = map[string]func(fail bool) ro.Observable[int]{
+	"TakeUntil": func(f bool) ro.Observable[int] { return ro.TakeUntil[int](pumpSourceEnd(0, 1000, f))(pumpSource(600, 0)) },
+	"SkipUntil": func(f bool) ro.Observable[int] { return ro.SkipUntil[int](pumpSourceEnd(5, 1000, f))(pumpSource(400, 0)) },
+	"SampleWhen": func(f bool) ro.Observable[int] {
+		return ro.SampleWhen[int](pumpSourceEnd(60, 1000, f))(pumpSource(600, 0))
+	},
+	"ThrottleWhen": func(f bool) ro.Observable[int] {
+		return ro.ThrottleWhen[int](pumpSourceEnd(60, 1000, f))(pumpSource(600, 0))
+	},
+	"BufferWhen": func(f bool) ro.Observable[int] {
+		return lenOf(ro.BufferWhen[int](pumpSourceEnd(60, 1000, f))(pumpSource(600, 0)))
+	},
+	"WindowWhen": func(f bool) ro.Observable[int] {
+		return ro.MergeAll[int]()(ro.WindowWhen[int](pumpSourceEnd(60, 1000, f))(pumpSource(600, 0)))
+	},
+	"MergeWith": func(f bool) ro.Observable[int] { return ro.MergeWith(pumpSourceEnd(60, 1000, f))(pumpSource(80, 0)) },
+	"MergeMap": func(f bool) ro.Observable[int] {
+		return ro.MergeMap(func(v int) ro.Observable[int] { return pumpSourceEnd(20, v*100, f && v == 1) })(ro.Just(0, 1, 2))
+	},
+	"RaceWith": func(f bool) ro.Observable[int] { return ro.RaceWith(pumpSourceEnd(60, 1000, f))(pumpSource(80, 0)) },
+	"Zip2": func(f bool) ro.Observable[int] {
+		return ro.Map(func(t lo.Tuple2[int, int]) int { return t.A })(ro.Zip2(pumpSource(80, 0), pumpSourceEnd(60, 1000, f)))
+	},
+	"Zip3": func(f bool) ro.Observable[int] {
+		return ro.Map(func(t lo.Tuple3[int, int, int]) int { return t.A })(ro.Zip3(pumpSource(80, 0), pumpSourceEnd(60, 1000, f), pumpSource(70, 2000)))
+	},
+	"CombineLatest2": func(f bool) ro.Observable[int] {
+		return ro.Map(func(t lo.Tuple2[int, int]) int { return t.A })(ro.CombineLatest2(pumpSource(80, 0), pumpSourceEnd(60, 1000, f)))
+	},
+	"CombineLatest3": func(f bool) ro.Observable[int] {
+		return ro.Map(func(t lo.Tuple3[int, int, int]) int { return t.A })(ro.CombineLatest3(pumpSource(80, 0), pumpSourceEnd(60, 1000, f), pumpSource(70, 2000)))
+	},
+	"CombineLatestAll": func(f bool) ro.Observable[int] {
+		return lenOf(ro.CombineLatestAll[int]()(ro.Just(pumpSource(80, 0), pumpSourceEnd(60, 1000, f))))
+	},
+	"ZipAll": func(f bool) ro.Observable[int] {
+		return lenOf(ro.ZipAll[int]()(ro.Just(pumpSource(80, 0), pumpSourceEnd(60, 1000, f))))
+	},
+	// a fallback that is itself multi-source, reached after the source failed
+	"Catch": func(f bool) ro.Observable[int] {
+		return ro.Catch(func(error) ro.Observable[int] { return ro.Merge(pumpSource(60, 0), pumpSourceEnd(60, 1000, f)) })(ro.Throw[int](fmt.Errorf("x")))
+	},
+	"OnErrorResumeNextWith": func(f bool) ro.Observable[int] {
+		return ro.OnErrorResumeNextWith(ro.Merge(pumpSource(60, 0), pumpSourceEnd(60, 1000, f)))(ro.Throw[int](fmt.Errorf("x")))
+	},
+	"Concat": func(f bool) ro.Observable[int] {
+		return ro.Concat(ro.Just(1), ro.Merge(pumpSource(60, 0), pumpSourceEnd(60, 1000, f)))
+	},
+	"StartWith": func(f bool) ro.Observable[int] {
+		return ro.StartWith(7)(ro.Merge(pumpSource(60, 0), pumpSourceEnd(60, 1000, f)))
+	},
+	"Defer": func(f bool) ro.Observable[int] {
+		return ro.Defer(func() ro.Observable[int] { return ro.Merge(pumpSource(60, 0), pumpSourceEnd(60, 1000, f)) })
+	},
+	"Timeout": func(f bool) ro.Observable[int] { return ro.Timeout[int](50 * time.Microsecond)(pumpSourceEnd(400, 0, f)) },
+	"BufferWithTimeOrCount": func(f bool) ro.Observable[int] {
+		return lenOf(ro.BufferWithTimeOrCount[int](3, 30*time.Microsecond)(pumpSourceEnd(400, 0, f)))
+	},
+	"Delay": func(f bool) ro.Observable[int] { return ro.Delay[int](20 * time.Microsecond)(pumpSourceEnd(200, 0, f)) },
+}
+
+func init() { registerKind("overlap2", genOverlap2, "overlap2", runOverlap2Case) }
+
+func runOverlap2Case(c *Case) string {
+	mk, ok := overlap2Ops[c.get("op", "?")]
+	if !ok {
+		return "res " + c.id + " unsupported"
+	}
+	rounds := 25
+	fmt.Sscanf(c.get("rounds", "25"), "%d", &rounds)
+	fail := c.get("fail", "0") == "1"
+	setRecorder(nil)
+	worst := int32(0)
+	hung := 0
+	for r := 0; r < rounds && worst <= 1; r++ {
+		o := &overlapObserver{}
+		obs := mk(fail)
+		done := make(chan ro.Subscription, 1)
+		go func() { done <- obs.Subscribe(o) }()
+		var sub ro.Subscription
+		select {
+		case sub = <-done:
+		case <-time.After(3 * time.Second):
+			hung++ // an operator that waits inside Subscribe (Concat, OnErrorResumeNextWith) over a stream that did not end
+		}
+		deadline := time.Now().Add(time.Second)
+		for atomic.LoadInt32(&o.done) == 0 && time.Now().Before(deadline) {
+			time.Sleep(200 * time.Microsecond)
+		}
+		if sub != nil {
+			sub.Unsubscribe()
+		}
+		if m := atomic.LoadInt32(&o.maxInside); m > worst {
+			worst = m
+		}
+	}
+	verdict := "serialized"
+	if worst > 1 {
+		verdict = "overlap"
+	}
+	return fmt.Sprintf("res %s observed=%s maxinside=%d hung=%d", c.id, verdict, worst, hung)
+}
+
+func genOverlap2(tier string, seed int64, only string) []*Case {
+	rounds := "12"
+	if tier == "thorough" {
+		rounds = "120"
+	}
+	var names []string
+	for k := range overlap2Ops {
+		names = append(names, k)
+	}
+	sortStrings(names)
+	var cases []*Case
+	id := 0
+	for _, n := range names {
+		if only != "" && n != only {
+			continue
+		}
+		for _, f := range []string{"0", "1"} {
+			id++
+			cases = append(cases, newCase(id, "kind", "overlap2", "op", n, "fail", f, "rounds", rounds))
+		}
+	}
+	return cases
 }
